@@ -91,10 +91,24 @@ func (s *Server) HandlePutService(w http.ResponseWriter, r *http.Request) {
 	}
 
 	s.idpConfigMu.Lock()
-	s.serviceProviders[service.Metadata.EntityID] = &service.Metadata
+	s.registerService(r.PathValue("id"), &service)
 	s.idpConfigMu.Unlock()
 
 	w.WriteHeader(http.StatusNoContent)
+}
+
+// registerService makes the metadata of the named service known to the IDP,
+// replacing whatever was registered under that name before. The caller must
+// hold idpConfigMu.
+func (s *Server) registerService(name string, service *Service) {
+	if s.serviceEntityIDs == nil {
+		s.serviceEntityIDs = map[string]string{}
+	}
+	if oldEntityID, ok := s.serviceEntityIDs[name]; ok && oldEntityID != service.Metadata.EntityID {
+		delete(s.serviceProviders, oldEntityID)
+	}
+	s.serviceProviders[service.Metadata.EntityID] = &service.Metadata
+	s.serviceEntityIDs[name] = service.Metadata.EntityID
 }
 
 // HandleDeleteService handles the `DELETE /services/:id` request.
@@ -115,6 +129,7 @@ func (s *Server) HandleDeleteService(w http.ResponseWriter, r *http.Request) {
 
 	s.idpConfigMu.Lock()
 	delete(s.serviceProviders, service.Metadata.EntityID)
+	delete(s.serviceEntityIDs, r.PathValue("id"))
 	s.idpConfigMu.Unlock()
 
 	w.WriteHeader(http.StatusNoContent)
@@ -134,7 +149,7 @@ func (s *Server) initializeServices() error {
 		}
 
 		s.idpConfigMu.Lock()
-		s.serviceProviders[service.Metadata.EntityID] = &service.Metadata
+		s.registerService(serviceName, &service)
 		s.idpConfigMu.Unlock()
 	}
 	return nil
